@@ -196,7 +196,10 @@ class RecordingDul(object):
         self.lazy = lazy
 
     def send(self, primitive):
-        if hasattr(primitive, 'pdu_type') or self.lazy:
+        if getattr(primitive, 'pdu_type', None) == 4:
+            # a single P-DATA-TF handed over as it is: the real provider transmits it just like a one-PDU message
+            self.sent.append([primitive])
+        elif hasattr(primitive, 'pdu_type') or self.lazy:
             self.sent.append(primitive)
         else:
             self.sent.append(list(primitive))
